@@ -1,4 +1,4 @@
-/* HARNESS wraps: deflate,inflate */
+/* HARNESS wraps: deflate,inflate,parser_feed */
 /* engine zl (C20): the real compression.c + the real zlib on top of a scripted lower transport.
 
    A real xmpp_conn_t (state CONNECTED, sm_state zeroed, sock = an fd on /dev/null so that
@@ -14,10 +14,14 @@
         nothing readable).  ai is the answer of the lower transport to its i-th write call in this
         iteration: all | <n> (accepts min(n,len)) | again (-1, EAGAIN) | err (-1, ECONNRESET);
         calls beyond the schedule get `all`.  H = the bytes the lower transport accepted.
-   rxz H                                 = plain H rets=r1,r2,.. err=E st=c|d disc=k
-        one compressed fragment becomes readable; the read branch of xmpp_run_once is replayed
-        (conn->intf.read with a STROPHE_MESSAGE_BUFFER_SIZE buffer while readable||pending; a
-        return <= 0 is handled as event.c does: unrecoverable error or "closed by remote host").
+   rxz H                                 = plain H rets=r1,r2,.. net H' calls=.. acked=N q=n pend=0|1 err=E st=c|d disc=k
+        one compressed fragment reaches the socket; the application keeps calling the REAL
+        xmpp_run_once(ctx,0) for as long as select() reports the socket readable (the wrapped
+        select says "readable" exactly while the lower transport has unread bytes or saw EOF).
+        Each such call is a whole loop iteration: send half (lower transport accepts everything),
+        then the read branch.  H = what xmpp_run_once handed to parser_feed (wrapped: recorded, not
+        parsed), rets = what conn->intf.read returned (observed by a pass-through shim), H' = bytes
+        the send halves forwarded meanwhile.
    eof                                   like rxz, the lower read returns 0
    pend                                  = pend 0|1             (conn->intf.pending)
    end                                   = end live=<blocks still allocated after xmpp_conn_release>
@@ -35,8 +39,10 @@
                     and the server can inflate less than the write loop has taken from the queue
      read-mismatch  delivered plaintext is not a prefix of what the server deflated
      spurious-eof   read() returned <= 0 for a fragment of a healthy stream: the event loop closes
-     read-stall     nothing pending any more, yet delivered plaintext is shorter than what the
-                    received compressed bytes inflate to
+     read-stall     socket drained, intf->pending() == 0, yet delivered plaintext is shorter than what
+                    the received compressed bytes inflate to (the rest sits inside zlib)
+     pending-ignored  socket drained, intf->pending() == 1, but xmpp_run_once does not come back for
+                    the input in the decompression buffer until the next socket event
      spurious-disconnect  the write loop disconnected although the lower transport reported no hard error
      leak           blocks still allocated after xmpp_conn_release
      hyp-zlib       the recorded zlib calls violate H-zlib (not a libstrophe defect) */
@@ -294,6 +300,39 @@ static const struct conn_interface lt_intf = {
     lt_read, lt_write, lt_nop, lt_nop, lt_get_error, lt_is_recoverable, NULL,
 };
 
+/* ---------------- observation points of the read branch ---------------- */
+static gb rd_got;   /* plaintext handed to parser_feed during the current op */
+static gb rd_rets;  /* textual list of intf->read results of the current op */
+static int rd_closed_by_nonpositive, rd_lower_eof_seen;
+static int (*real_upper_read)(struct conn_interface *intf, void *buff, size_t len);
+
+int __real_parser_feed(parser_t *parser, char *chunk, int len);
+int __wrap_parser_feed(parser_t *parser, char *chunk, int len)
+{
+    if (!zl_active)
+        return __real_parser_feed(parser, chunk, len);
+    gb_add(&rd_got, chunk, (size_t)len);
+    return 1;
+}
+
+/* pass-through shim installed over compression_read: only logs the result */
+static int shim_read(struct conn_interface *intf, void *buff, size_t len)
+{
+    char tmp[32];
+    int at_eof = lt.in_eof && lt.inq.n == lt.inq_pos;
+    int was_pending = intf->pending(intf);
+    int ret = real_upper_read(intf, buff, len);
+    snprintf(tmp, sizeof(tmp), "%s%d", rd_rets.n ? "," : "", ret);
+    gb_add(&rd_rets, tmp, strlen(tmp));
+    if (ret <= 0) {
+        if (at_eof && !was_pending)
+            rd_lower_eof_seen = 1;
+        else
+            rd_closed_by_nonpositive = 1;
+    }
+    return ret;
+}
+
 /* ---------------- per-case state ---------------- */
 static xmpp_ctx_t *ctx;
 static long live_base;
@@ -385,6 +424,8 @@ static int do_init(int dont_reset)
     zl_active = 1;
     rc = compression_init(conn);
     zl_active = 0;
+    real_upper_read = conn->intf.read;
+    conn->intf.read = shim_read;
     return rc;
 }
 
@@ -482,49 +523,38 @@ static void write_oracle(FILE *out, size_t acked, int was_connected)
                 srv_plain.n, acked);
 }
 
-/* the read branch of xmpp_run_once for one connected, non-TLS connection */
+/* a fragment (or EOF) has reached the socket: the application's loop around xmpp_run_once */
 static void do_read_loop(FILE *out)
 {
-    gb got = {0}, rets = {0};
-    char buf[4096]; /* STROPHE_MESSAGE_BUFFER_SIZE */
-    struct conn_interface *intf = &conn->intf;
-    int guard = 0, closed_by_zero = 0, lower_eof_seen = 0;
-    char tmp[32];
-    while (conn->state == XMPP_STATE_CONNECTED && (lt_readable() || intf->pending(intf)) &&
-           guard++ < 200000) {
-        int ret;
-        int at_eof = lt.in_eof && lt.inq.n == lt.inq_pos;
+    int guard = 0;
+    size_t acked;
+    int was_connected = conn->state == XMPP_STATE_CONNECTED;
+    gb_reset(&rd_got);
+    gb_reset(&rd_rets);
+    rd_closed_by_nonpositive = rd_lower_eof_seen = 0;
+    gb_reset(&lt.op_net);
+    gb_reset(&lt.calls);
+    lt.op_backpressure = 0;
+    lt.op_hard_err = 0;
+    free(lt.sched);
+    lt.sched = NULL;
+    lt.nsched = lt.pos = 0;
+    while (conn->state == XMPP_STATE_CONNECTED && lt_readable() && guard++ < 200000) {
         zl_active = 1;
-        ret = intf->read(intf, buf, sizeof(buf));
+        hselect_mode = 1; /* the socket is readable */
+        xmpp_run_once(ctx, 0);
+        hselect_mode = 0;
         zl_active = 0;
-        snprintf(tmp, sizeof(tmp), "%s%d", rets.n ? "," : "", ret);
-        gb_add(&rets, tmp, strlen(tmp));
-        if (ret > 0) {
-            gb_add(&got, buf, (size_t)ret);
-            gb_add(&delivered, buf, (size_t)ret);
-        } else {
-            int err = intf->get_error(intf);
-            if (at_eof && !intf->pending(intf))
-                lower_eof_seen = 1;
-            if (conn->state == XMPP_STATE_CONNECTED)
-                closed_by_zero = 1;
-            if (!intf->error_is_recoverable(intf, err)) {
-                conn->error = err;
-                conn_disconnect(conn);
-            } else if (!conn->tls) {
-                conn->error = ECONNRESET;
-                conn_disconnect(conn);
-            }
-        }
     }
+    gb_add(&delivered, rd_got.p, rd_got.n);
+    acked = submitted_total - queue_unwritten();
+    write_oracle(out, acked, was_connected);
     /* reference: inflate everything the client was given */
-    if (exp_on && !exp_bad) {
-        if (rx_all.n > exp_fed) {
-            int rc = feed_inflater(&exp_z, rx_all.p + exp_fed, rx_all.n - exp_fed, &exp_plain);
-            exp_fed = rx_all.n;
-            if (rc != Z_OK)
-                exp_bad = 1; /* the peer sent garbage / ended the stream: closing is right */
-        }
+    if (exp_on && !exp_bad && rx_all.n > exp_fed) {
+        int rc = feed_inflater(&exp_z, rx_all.p + exp_fed, rx_all.n - exp_fed, &exp_plain);
+        exp_fed = rx_all.n;
+        if (rc != Z_OK)
+            exp_bad = 1; /* the peer sent garbage / ended the stream: closing is right */
     }
     if (!exp_bad) {
         size_t c = gb_common(&delivered, &exp_plain);
@@ -533,19 +563,26 @@ static void do_read_loop(FILE *out)
                     delivered.n, exp_plain.n, c);
             f_rmis = 1;
         }
-        if (closed_by_zero && !lower_eof_seen)
-            fprintf(out, "ORACLE-FAIL spurious-eof read-returned-0-on-a-healthy-stream delivered=%zu expected=%zu\n",
+        if (rd_closed_by_nonpositive && conn->state != XMPP_STATE_CONNECTED)
+            fprintf(out, "ORACLE-FAIL spurious-eof read-returned-nothing-on-a-healthy-stream delivered=%zu expected=%zu\n",
                     delivered.n, exp_plain.n);
-        else if (conn->state == XMPP_STATE_CONNECTED && !f_rmis && delivered.n < exp_plain.n)
-            fprintf(out, "ORACLE-FAIL read-stall delivered=%zu expected=%zu nothing-pending\n",
-                    delivered.n, exp_plain.n);
+        else if (conn->state == XMPP_STATE_CONNECTED && !f_rmis && delivered.n < exp_plain.n) {
+            if (conn->intf.pending(&conn->intf))
+                fprintf(out, "ORACLE-FAIL pending-ignored delivered=%zu expected=%zu socket-drained intf-pending=1\n",
+                        delivered.n, exp_plain.n);
+            else
+                fprintf(out, "ORACLE-FAIL read-stall delivered=%zu expected=%zu socket-drained intf-pending=0\n",
+                        delivered.n, exp_plain.n);
+        }
     }
     fprintf(out, "= plain ");
-    hprint_hex(out, got.p ? got.p : (unsigned char *)"", got.n);
-    fprintf(out, " rets=%.*s", (int)(rets.n ? rets.n : 1), rets.n ? (char *)rets.p : "-");
+    hprint_hex(out, rd_got.p ? rd_got.p : (unsigned char *)"", rd_got.n);
+    fprintf(out, " rets=%.*s net ", (int)(rd_rets.n ? rd_rets.n : 1), rd_rets.n ? (char *)rd_rets.p : "-");
+    hprint_hex(out, lt.op_net.p ? lt.op_net.p : (unsigned char *)"", lt.op_net.n);
+    fprintf(out, " calls=%.*s acked=%zu q=%d pend=%d", (int)(lt.calls.n ? lt.calls.n : 1),
+            lt.calls.n ? (char *)lt.calls.p : "-", acked, conn->send_queue_len,
+            conn->intf.pending(&conn->intf) ? 1 : 0);
     print_tail(out);
-    gb_reset(&got);
-    gb_reset(&rets);
 }
 
 int eng_zl(FILE *in, FILE *out)
